@@ -904,6 +904,9 @@ class Fxp():
                     #  python numbers held in an object array - exact quotients, mixed integers and floats - are rounded one by one as they are;
                     #  integer raw codes stay integers: a float or narrow value type would cut them)
                     val = val.astype(original_vdtype)
+                elif raw and val.dtype.kind == 'u':
+                    # (unsigned raw codes - e.g. the negation or a wrapped difference of unsigned codes - are re-interpreted as signed integers)
+                    val = val.astype(np.int64)
                 val_dtype = np.int64 if self.signed else np.uint64
 
             # rounding and overflowing
